@@ -150,10 +150,11 @@ def lsq_uf_hook(env, uf, log):
 class C15Refine(Harness):
     name = "C15Refine"
     prop = "C15"
-    bounds = ("refine_droplets / locate_droplets(refine=True) over 3 concrete candidates (different radii) on a 1D field: "
+    bounds = ("refine_droplets / locate_droplets(refine=True) over 3 concrete candidates (different radii; interface width set / unset) on a 1D field: "
               "num_processes in {1, 2, 'auto'} x every completion order; refine options incl. a caller-supplied "
               "least_squares_params dict, tolerance; repeated calls with the same option objects")
-    stubs = ["ProcessPoolExecutor model (deep copies per task, completion order chosen by the harness)",
+    stubs = ["ProcessPoolExecutor model (pickled copies per task following the objects' pickle protocol, numpy records restored "
+             "detached; completion order chosen by the harness)",
              "least_squares = uninterpreted function of start, bounds and every keyword argument (float replay: the real "
              "optimiser and the real process pool)"]
     cost = 3
@@ -169,7 +170,10 @@ class C15Refine(Harness):
 
     def configs(self, tier):
         perms = list(itertools.permutations(range(3)))
-        return [dict(opt=o, order=list(p)) for o in range(len(self.OPTS)) for p in (perms if tier == "thorough" else perms[::2])]
+        out = [dict(opt=o, order=list(p)) for o in range(len(self.OPTS)) for p in (perms if tier == "thorough" else perms[::2])]
+        # candidates whose interface width is unset (refinement sets it on the copy the worker received)
+        out += [dict(opt=o, order=list(p), cand="unset") for o in (0, 4) for p in (perms if tier == "thorough" else perms[:2])]
+        return out
 
     def sample(self, cfg, rng):
         return dict(dummy=F(0))
@@ -189,8 +193,9 @@ class C15Refine(Harness):
             v = sum(0.5 + 0.5 * math.tanh((r - abs(x - c)) / 1.0) for c, r in ((4.0, 1.5), (11.0, 2.5), (19.0, 2.0)))
             prof.append(F(round(min(v, 1.0) * 10 ** 9), 10 ** 9))
         field = env.field(grid, env.array(prof))
-        cands = lambda: [env.D.DiffuseDroplet([F(17, 4)], F(3, 2), 1), env.D.DiffuseDroplet([F(43, 4)], F(5, 2), 1),
-                         env.D.DiffuseDroplet([F(77, 4)], 2, 1)]
+        wd = None if cfg.get("cand") == "unset" else 1
+        cands = lambda: [env.D.DiffuseDroplet([F(17, 4)], F(3, 2), wd), env.D.DiffuseDroplet([F(43, 4)], F(5, 2), wd),
+                         env.D.DiffuseDroplet([F(77, 4)], 2, wd)]
         import copy
 
         def fresh_opts():
